@@ -1,0 +1,331 @@
+//go:build verif
+
+package native
+
+// Contracts for the verif build tag (comment-only; see /verif/DESIGN.md).
+
+// C04, native contract caches. A DAO layer reads the caches of the layers below it and writes only
+// its own copies: what GetROCache returns must never be written through (`opt result readonly` on
+// dao.GetROCache). Every function of this package that takes a cache from the DAO is listed here
+// (those with a contract of their own elsewhere are checked there); the listed functions have no
+// other obligation than not to panic outside the declared ways and not to write through a
+// read-only cache.
+//@ prop C04
+
+//@ func (*Designate).DesignateAsRole
+//@ may-panic
+//@ opt frame off
+//@ opt callbacks pure
+//@ opt only readonly
+
+//@ func (*Designate).GetDesignatedByRole
+//@ may-panic
+//@ opt frame off
+//@ opt callbacks pure
+//@ opt only readonly
+
+//@ func (*Designate).GetLastDesignatedHash
+//@ may-panic
+//@ opt frame off
+//@ opt callbacks pure
+//@ opt only readonly
+
+//@ func (*Designate).notifyServicesInternal
+//@ may-panic
+//@ opt frame off
+//@ opt callbacks pure
+//@ opt only readonly
+
+//@ func (*Management).GetNEP11Contracts
+//@ may-panic
+//@ opt frame off
+//@ opt callbacks pure
+//@ opt only readonly
+
+//@ func (*Management).GetNEP17Contracts
+//@ may-panic
+//@ opt frame off
+//@ opt callbacks pure
+//@ opt only readonly
+
+//@ func (*Management).OnPersist
+//@ may-panic
+//@ opt frame off
+//@ opt callbacks pure
+//@ opt only readonly
+
+//@ func (*NEO).CalculateNEOHolderReward
+//@ may-panic
+//@ opt frame off
+//@ opt callbacks pure
+//@ opt only readonly
+
+//@ func (*NEO).ComputeNextBlockValidators
+//@ may-panic
+//@ opt frame off
+//@ opt callbacks pure
+//@ opt only readonly
+
+//@ func (*NEO).GetCommitteeAddress
+//@ may-panic
+//@ opt frame off
+//@ opt callbacks pure
+//@ opt only readonly
+
+//@ func (*NEO).GetCommitteeMembers
+//@ may-panic
+//@ opt frame off
+//@ opt callbacks pure
+//@ opt only readonly
+
+//@ func (*NEO).GetGASPerBlock
+//@ may-panic
+//@ opt frame off
+//@ opt callbacks pure
+//@ opt only readonly
+
+//@ func (*NEO).GetNextBlockValidatorsInternal
+//@ may-panic
+//@ opt frame off
+//@ opt callbacks pure
+//@ opt only readonly
+
+//@ func (*NEO).OnPersist
+//@ may-panic
+//@ opt frame off
+//@ opt callbacks pure
+//@ opt only readonly
+
+//@ func (*NEO).PostPersist
+//@ may-panic
+//@ opt frame off
+//@ opt callbacks pure
+//@ opt only readonly
+
+//@ func (*NEO).SetGASPerBlock
+//@ may-panic
+//@ opt frame off
+//@ opt callbacks pure
+//@ opt only readonly
+
+//@ func (*NEO).UnregisterCandidateInternal
+//@ may-panic
+//@ opt frame off
+//@ opt callbacks pure
+//@ opt only readonly
+
+//@ func (*NEO).getLatestGASPerVote
+//@ may-panic
+//@ opt frame off
+//@ opt callbacks pure
+//@ opt only readonly
+
+//@ func (*NEO).getRegisterPriceInternal
+//@ may-panic
+//@ opt frame off
+//@ opt callbacks pure
+//@ opt only readonly
+
+//@ func (*NEO).setRegisterPrice
+//@ may-panic
+//@ opt frame off
+//@ opt callbacks pure
+//@ opt only readonly
+
+//@ func (*Notary).GetMaxNotValidBeforeDelta
+//@ may-panic
+//@ opt frame off
+//@ opt callbacks pure
+//@ opt only readonly
+
+//@ func (*Notary).setMaxNotValidBeforeDelta
+//@ may-panic
+//@ opt frame off
+//@ opt callbacks pure
+//@ opt only readonly
+
+//@ func (*Oracle).getPriceInternal
+//@ may-panic
+//@ opt frame off
+//@ opt callbacks pure
+//@ opt only readonly
+
+//@ func (*Oracle).setPrice
+//@ may-panic
+//@ opt frame off
+//@ opt callbacks pure
+//@ opt only readonly
+
+//@ func (*Policy).BlockAccountInternalDeferrable
+//@ may-panic
+//@ opt frame off
+//@ opt callbacks pure
+//@ opt only readonly
+
+//@ func (*Policy).CheckPolicy
+//@ may-panic
+//@ opt frame off
+//@ opt callbacks pure
+//@ opt only readonly
+
+//@ func (*Policy).CleanWhitelist
+//@ may-panic
+//@ opt frame off
+//@ opt callbacks pure
+//@ opt only readonly
+
+//@ func (*Policy).GetAttributeFeeInternal
+//@ may-panic
+//@ opt frame off
+//@ opt callbacks pure
+//@ opt only readonly
+
+//@ func (*Policy).GetExecFeeFactorInternal
+//@ may-panic
+//@ opt frame off
+//@ opt callbacks pure
+//@ opt only readonly
+
+//@ func (*Policy).GetFeePerByteInternal
+//@ may-panic
+//@ opt frame off
+//@ opt callbacks pure
+//@ opt only readonly
+
+//@ func (*Policy).GetMaxTraceableBlocksInternal
+//@ may-panic
+//@ opt frame off
+//@ opt callbacks pure
+//@ opt only readonly
+
+//@ func (*Policy).GetMaxValidUntilBlockIncrementFromCache
+//@ may-panic
+//@ opt frame off
+//@ opt callbacks pure
+//@ opt only readonly
+
+//@ func (*Policy).GetMaxVerificationGas
+//@ may-panic
+//@ opt frame off
+//@ opt callbacks pure
+//@ opt only readonly
+
+//@ func (*Policy).GetMillisecondsPerBlockInternal
+//@ may-panic
+//@ opt frame off
+//@ opt callbacks pure
+//@ opt only readonly
+
+//@ func (*Policy).GetStoragePriceInternal
+//@ may-panic
+//@ opt frame off
+//@ opt callbacks pure
+//@ opt only readonly
+
+//@ func (*Policy).Initialize
+//@ may-panic
+//@ opt frame off
+//@ opt callbacks pure
+//@ opt only readonly
+
+//@ func (*Policy).IsBlocked
+//@ may-panic
+//@ opt frame off
+//@ opt callbacks pure
+//@ opt only readonly
+
+//@ func (*Policy).WhitelistedFee
+//@ may-panic
+//@ opt frame off
+//@ opt callbacks pure
+//@ opt only readonly
+
+//@ func (*Policy).getBlockedAccounts
+//@ may-panic
+//@ opt frame off
+//@ opt callbacks pure
+//@ opt only readonly
+
+//@ func (*Policy).getExecPicoFeeFactor
+//@ may-panic
+//@ opt frame off
+//@ opt callbacks pure
+//@ opt only readonly
+
+//@ func (*Policy).getWhitelistFeeContracts
+//@ may-panic
+//@ opt frame off
+//@ opt callbacks pure
+//@ opt only readonly
+
+//@ func (*Policy).isBlocked
+//@ may-panic
+//@ opt frame off
+//@ opt callbacks pure
+//@ opt only readonly
+
+//@ func (*Policy).removeWhitelistFeeContract
+//@ may-panic
+//@ opt frame off
+//@ opt callbacks pure
+//@ opt only readonly
+
+//@ func (*Policy).setAttributeFeeGeneric
+//@ may-panic
+//@ opt frame off
+//@ opt callbacks pure
+//@ opt only readonly
+
+//@ func (*Policy).setExecFeeFactor
+//@ may-panic
+//@ opt frame off
+//@ opt callbacks pure
+//@ opt only readonly
+
+//@ func (*Policy).setFeePerByte
+//@ may-panic
+//@ opt frame off
+//@ opt callbacks pure
+//@ opt only readonly
+
+//@ func (*Policy).setMaxTraceableBlocks
+//@ may-panic
+//@ opt frame off
+//@ opt callbacks pure
+//@ opt only readonly
+
+//@ func (*Policy).setMaxValidUntilBlockIncrement
+//@ may-panic
+//@ opt frame off
+//@ opt callbacks pure
+//@ opt only readonly
+
+//@ func (*Policy).setMillisecondsPerBlock
+//@ may-panic
+//@ opt frame off
+//@ opt callbacks pure
+//@ opt only readonly
+
+//@ func (*Policy).setStoragePrice
+//@ may-panic
+//@ opt frame off
+//@ opt callbacks pure
+//@ opt only readonly
+
+//@ func (*Policy).unblockAccount
+//@ may-panic
+//@ opt frame off
+//@ opt callbacks pure
+//@ opt only readonly
+
+//@ func GetContract
+//@ may-panic
+//@ opt frame off
+//@ opt callbacks pure
+//@ opt only readonly
+
+//@ func markUpdated
+//@ may-panic
+//@ opt frame off
+//@ opt callbacks pure
+//@ opt only readonly
